@@ -23,6 +23,16 @@ class Undecided(Exception):
     """The construct is outside the translatable fragment."""
 
 
+class _Budget:
+    left = None  # None = unlimited
+
+
+def set_budget(n):
+    """Bound the work (term multiplications) of the following normalisations;
+    exceeding it makes the instance undecided ("expression too large")."""
+    _Budget.left = n
+
+
 # --------------------------------------------------------------------------
 # atoms
 # --------------------------------------------------------------------------
@@ -135,6 +145,11 @@ class Poly:
     def __mul__(self, o):
         if not self.t or not o.t:
             return Poly()
+        if _Budget.left is not None:
+            _Budget.left -= len(self.t) * len(o.t)
+            if _Budget.left < 0:
+                _Budget.left = None
+                raise Undecided("expression too large for the normaliser's work budget")
         t = {}
         for m1, (c1, g1) in self.t.items():
             for m2, (c2, g2) in o.t.items():
